@@ -42,7 +42,46 @@ func newLoss(kind string) func(p, t tensor.Tensor) (tensor.Tensor, error) {
 	return losses.NewCE().Compute
 }
 
+// rejectedLossCalls makes invalid Compute calls on the loss object with the very tensors the
+// next valid call uses: nil prediction / nil target, wrong rank, mismatched batch size. Each
+// must be rejected, and none may influence the valid call.
+func rejectedLossCalls(kind string, compute func(p, t tensor.Tensor) (tensor.Tensor, error), p, tg tensor.Tensor) *Failure {
+	ps := p.Shape()
+	longer := append([]int{ps[0] + 3}, ps[1:]...)
+	n := ref.Prod(longer)
+	lv := make([]float64, n)
+	for i := range lv {
+		lv[i] = 0.25
+	}
+	wrongRank := lib.MustNew(append([]int{1}, ps...), make([]float64, ref.Prod(ps)), false)
+	for _, bad := range []struct {
+		what string
+		p, t tensor.Tensor
+	}{
+		// calls involving other objects first, the ones that involve the targets of the valid
+		// call that follows last (per-object state keyed by an argument must not survive them)
+		{"nil target", p, nil},
+		{"more targets than predictions", p, lib.MustNew(longer, lv, false)},
+		{"wrong rank", wrongRank, tg},
+		{"more predictions than targets", lib.MustNew(longer, lv, false), tg},
+		{"nil prediction", nil, tg},
+	} {
+		l, err := compute(bad.p, bad.t)
+		if err == nil || l != nil {
+			return failf("%s.Compute accepted an invalid call (%s)", kind, bad.what)
+		}
+	}
+	return nil
+}
+
 func lossShape(t *rapid.T, kind string) []int {
+	if rapid.IntRange(0, 19).Draw(t, "bigbatch") == 0 {
+		n := rapid.SampledFrom([]int{64, 255, 257, 300, 513, 777, 1025}).Draw(t, "bign")
+		if kind == "ce" {
+			return []int{n, rapid.IntRange(1, 2).Draw(t, "classes")}
+		}
+		return []int{n}
+	}
 	if kind == "ce" {
 		return []int{rapid.IntRange(1, 6).Draw(t, "batch"), rapid.IntRange(1, 5).Draw(t, "classes")}
 	}
@@ -136,9 +175,15 @@ func checkC12(c LossCase) *Failure {
 			return failf("%s on a batch of %d = %v, defined value %v", c.Kind, ws[0], lv, ww.V)
 		}
 	}
-	for _, tr := range [][2]bool{{pl.Tracked, c.TTr}, {false, false}, {true, true}} {
+	for vi, tr := range [][2]bool{{pl.Tracked, c.TTr}, {false, false}, {true, true}} {
 		p := lib.MustNew(pl.Shape, pl.Vals, tr[0])
 		tg := lib.MustNew(pl.Shape, c.T, tr[1])
+		if vi == 0 {
+			// rejected calls that already involve the tensors of the valid call that follows
+			if f := rejectedLossCalls(c.Kind, compute, p, tg); f != nil {
+				return f
+			}
+		}
 		l, err := compute(p, tg)
 		if err != nil {
 			return failf("%s.Compute rejected inputs of shape %v: %v", c.Kind, pl.Shape, err)
@@ -204,6 +249,9 @@ var c13UpOps = []string{"scale", "mul", "add", "sub", "tanh", "sin", "pow", "elm
 func genC13(t *rapid.T) LossCase {
 	kind := rapid.SampledFrom([]string{"mse", "bce", "ce"}).Draw(t, "kind")
 	s := lossShape(t, kind)
+	if ref.Prod(s) > 100 && rapid.IntRange(0, 2).Draw(t, "keepbig") > 0 {
+		s[0] = rapid.IntRange(1, 6).Draw(t, "smallbatch")
+	}
 	n := ref.Prod(s)
 	c := LossCase{Kind: kind}
 	tg, _ := drawProb(t, n, "t", false)
@@ -235,9 +283,12 @@ func genC13(t *rapid.T) LossCase {
 	}
 	// upstream program: smooth shape-preserving ops over leaves in (0,1)
 	cfg := prog.DefaultCfg([]string{"scale", "mul", "add", "sub", "tanh", "sin", "pow", "elmax", "elmin", "mul", "scale"})
-	cfg.MaxElems = 64
+	cfg.MaxElems = 2100
 	g := prog.NewGen(t, cfg)
 	nl := rapid.IntRange(1, 3).Draw(t, "nleaves")
+	if n > 100 {
+		nl = 1
+	}
 	var pool []int
 	for l := 0; l < nl; l++ {
 		v := make([]float64, n)
@@ -249,9 +300,24 @@ func genC13(t *rapid.T) LossCase {
 		pool = append(pool, l)
 	}
 	nn := rapid.IntRange(1, 6).Draw(t, "nnodes")
+	if n > 100 {
+		// a large batch: p = a^2 + a or p = a + a (the first contribution reaches a through a
+		// pass-through rule), or one or two plain nodes
+		switch rapid.IntRange(0, 2).Draw(t, "bigform") {
+		case 0:
+			g.P.Nodes = []prog.Node{{Op: "pow", In: []int{0}, F: 2}, {Op: "add", In: []int{1, 0}}}
+			c.Up = g.P
+			return c
+		case 1:
+			g.P.Nodes = []prog.Node{{Op: "add", In: []int{0, 0}}, {Op: "scale", In: []int{1}, F: 0.5}}
+			c.Up = g.P
+			return c
+		}
+		nn = rapid.IntRange(1, 2).Draw(t, "bignodes")
+	}
 	for len(g.P.Nodes) < nn {
 		before := len(g.Vals)
-		if rapid.IntRange(0, 3).Draw(t, "diamond") == 0 {
+		if n <= 100 && rapid.IntRange(0, 3).Draw(t, "diamond") == 0 {
 			g.AddDiamond(pool)
 		} else {
 			g.AddNode(pool)
@@ -281,7 +347,15 @@ func checkC13(c LossCase) *Failure {
 	tr := c.Up.Tracked()
 	pid := total - 1
 	reach := c.Up.Reach(pid, tr)
-	vals, slot, ctx, err := prog.RunRef(c.Up, reach, false)
+	// large batches: dual-number adjoints for the leaves only (interior values are still
+	// checked for nil-ness, shape, finiteness and - the prediction - against the closed form)
+	seed := append([]bool{}, reach...)
+	if n := len(c.T); n > 100 {
+		for i := nl; i < total; i++ {
+			seed[i] = false
+		}
+	}
+	vals, slot, ctx, err := prog.RunRef(c.Up, seed, false)
 	if err != nil {
 		return nil
 	}
@@ -332,6 +406,25 @@ func c13Round(c LossCase, compute func(p, t tensor.Tensor) (tensor.Tensor, error
 		return failf("upstream program rejected: %v", err)
 	}
 	tg := lib.MustNew(p.Shape, c.T, false)
+	if round == 1 {
+		// between the rounds: a valid call on a smaller batch, then calls that are rejected
+		// although they involve the tensors of the valid call that follows
+		if p.Shape[0] >= 2 {
+			hs := ref.Cp(p.Shape)
+			hs[0]--
+			hn := ref.Prod(hs)
+			hv := make([]float64, hn)
+			for i := range hv {
+				hv[i] = 0.5
+			}
+			if _, err := compute(lib.MustNew(hs, hv, true), lib.MustNew(hs, c.T[:hn], false)); err != nil {
+				return failf("%s.Compute rejected inputs of shape %v: %v", c.Kind, hs, err)
+			}
+		}
+		if f := rejectedLossCalls(c.Kind, compute, lv[pid], tg); f != nil {
+			return f
+		}
+	}
 	l, err := compute(lv[pid], tg)
 	if err != nil {
 		return failf("round %d: %s.Compute rejected inputs of shape %v: %v", round, c.Kind, p.Shape, err)
@@ -365,10 +458,16 @@ func c13Round(c LossCase, compute func(p, t tensor.Tensor) (tensor.Tensor, error
 		if !ref.EqShape(gs, vals[i].Shape) {
 			return failf("gradient of value %d has shape %v, tensor shape %v", i, gs, vals[i].Shape)
 		}
-		want, wsc := tangentOf(L, slot[i], len(vals[i].E))
+		var want, wsc []float64
+		if slot[i] >= 0 {
+			want, wsc = tangentOf(L, slot[i], len(vals[i].E))
+		}
 		for k := range gv {
 			if math.IsNaN(gv[k]) || math.IsInf(gv[k], 0) {
 				return failf("gradient of value %d [%d] = %v is not finite (prediction-side value %v)", i, k, gv[k], vals[i].E[k].V)
+			}
+			if want == nil {
+				continue
 			}
 			if !closeTo(gv[k], want[k], wsc[k]) {
 				return failf("%s: gradient of value %d [%d] = %v, analytic derivative = %v", c.Kind, i, k, gv[k], want[k])
@@ -394,13 +493,26 @@ func c13Round(c LossCase, compute func(p, t tensor.Tensor) (tensor.Tensor, error
 				if clipped && gv[k] != 0 {
 					return failf("%s: clipped prediction %v received gradient %v, expected a finite zero", c.Kind, pv, gv[k])
 				}
-				if math.Abs(gv[k]-cf) > 1e-9*math.Max(1, math.Abs(cf))+1e-9*wsc[k] {
+				sc := 0.0
+				if wsc != nil {
+					sc = wsc[k]
+				}
+				if math.Abs(gv[k]-cf) > 1e-9*math.Max(1, math.Abs(cf))+1e-9*sc {
 					return failf("%s: prediction gradient [%d] = %v, closed form = %v (p=%v t=%v N=%v)", c.Kind, k, gv[k], cf, pv, tv, N)
 				}
 			}
 		}
 	}
 	*clippedSeenOut = *clippedSeenOut || clippedSeen
+	// the round ends like a training step: the leaves that hold gradients are reset
+	for i := range c.Up.Leaves {
+		if lv[i].Gradient() != nil {
+			lv[i].ResetGradContext(true)
+			if lv[i].Gradient() != nil {
+				return failf("gradient survives ResetGradContext")
+			}
+		}
+	}
 	return nil
 }
 
